@@ -53,7 +53,7 @@ struct TEnd {
     uint64_t sc = 0, rx = 0;
     uint64_t accepted_not_running = 0;      //! bytes accepted by send() while the descriptor was not enabled
     uint64_t accepted_before_first_enable = 0;
-    bool backlog_at_reenable = false;       //! enable() after a disable() found unsent bytes queued
+    bool backlog_at_reenable = false;       //! the descriptor went through a disable()/enable() cycle
     uint64_t sends_since_sc = 0;
     std::deque<uint32_t> sc_plan, rx_plan;  //! sends to issue from inside the next send-complete / receive callbacks
     int teardown_at = 0;            //! 1 inside next receive cb, 2 inside next send-complete cb, 3 inside the close report
@@ -425,7 +425,7 @@ size_t r_write(Link &l, size_t n) {
 
 //! the raw peer half-closes (clean) or closes (clean only if nothing is outstanding either way)
 void r_close(Link &l, int kind) {
-    if (!l.has_raw || l.raw.closed || l.close_done) return;
+    if (!l.has_raw || l.raw.closed || l.close_done || l.raw.rfd < 0 || l.raw.wfd < 0) return;
     l.close_done = true; g->saw_close = true;
     TEnd &t = l.t;
     if (kind == 0 && l.tr == kPipe) kind = 1;
@@ -708,7 +708,8 @@ void bfd_enable(TEnd &t, bool on) {
         uint64_t kw;
         bool backlog = !t.running && kernel_written_upper(t, kw) && kw < t.out->accepted;
         if (!t.ever_enabled && backlog) vh::counter("enable_with_queued_data");
-        else if (!t.running && backlog) { vh::counter("reenable_with_queued_data"); t.backlog_at_reenable = true; }
+        else if (!t.running && backlog) vh::counter("reenable_with_queued_data");
+        if (t.ever_enabled && !t.running) t.backlog_at_reenable = true;     //! a disable()/enable() cycle happened (classification of a later stall)
         t.running = true; t.ever_enabled = true;
         g->log("T.enable");
     } else {
